@@ -473,6 +473,27 @@ pub fn query_suite(bytes: &[u8], pairs: &Pairs) -> CheckResult {
             }
         }
     }
+    {
+        // bounds falling between, on and just beside every key (up to 48 keys; an evenly
+        // spaced sample of 48 beyond that): seek paths through every kind of node
+        let step = (pairs.len() / 48).max(1);
+        for (k, _) in pairs.iter().step_by(step) {
+            let mut kz = k.clone();
+            kz.push(0);
+            let mut kb = k.clone();
+            if let Some(l) = kb.last_mut() {
+                *l = l.wrapping_add(1);
+            }
+            let mut kd = k.clone();
+            if let Some(l) = kd.last_mut() {
+                *l = l.wrapping_sub(1);
+            }
+            bs.push(vec![(Kind::Ge, kb.clone())]);
+            bs.push(vec![(Kind::Gt, kd.clone())]);
+            bs.push(vec![(Kind::Gt, k.clone()), (Kind::Le, kz.clone())]);
+            bs.push(vec![(Kind::Ge, kd), (Kind::Lt, kb)]);
+        }
+    }
     for b in &bs {
         check_range(bytes, pairs, b, false)?;
     }
@@ -487,6 +508,30 @@ pub fn query_suite(bytes: &[u8], pairs: &Pairs) -> CheckResult {
             let want: Pairs = pairs.iter().filter(|p| p.0.starts_with(pre.as_bytes())).cloned().collect();
             vensure!(got == want, "search-mismatch", "search(Str({}).starts_with()) yields {} want {}", pre, keys_show(&got), keys_show(&want));
         }
+    }
+    // search_with_state: keys, values and the reported automaton state
+    {
+        use fst::Automaton;
+        let aut = fst::automaton::Subsequence::new("ab");
+        let mut s = f.search_with_state(&aut).into_stream();
+        let mut i = 0usize;
+        let mut it = pairs.iter().filter_map(|(k, v)| {
+            let mut st = aut.start();
+            for &b in k {
+                st = aut.accept(&st, b);
+            }
+            if aut.is_match(&st) { Some((k, *v, st)) } else { None }
+        });
+        while let Some((k, v, st)) = s.next() {
+            match it.next() {
+                Some((wk, wv, wst)) => {
+                    vensure!(k == &wk[..] && v.value() == wv && st == wst, "search-state-mismatch", "search_with_state(Subsequence(\"ab\")) item {}: got {}={} state {}, expected {}={} state {}", i, show(k), v.value(), st, show(wk), wv, wst);
+                }
+                None => vfail!("search-state-mismatch", "search_with_state yields extra item {}", show(k)),
+            }
+            i += 1;
+        }
+        vensure!(it.next().is_none(), "search-state-mismatch", "search_with_state ended early after {} items", i);
     }
     // set operations with a sub-model
     let half: Pairs = pairs.iter().step_by(2).cloned().collect();
